@@ -268,6 +268,11 @@ func (db *Database) SearchUniversal(query string, options SearchOptions) []Searc
 	if db.uIndex == nil || db.uIndex.N != len(db.Commands) {
 		// (Re)build lazily if needed
 		db.BuildUniversalIndex()
+		// The re-ranker indexes the same commands (and maps their addresses, which
+		// move when the slice grows): keep it in step with the index.
+		if db.tfidf != nil {
+			db.buildTFIDFSearcher()
+		}
 	}
 
 	if options.Limit <= 0 {
